@@ -392,9 +392,10 @@ fn post_process<R, A, M, H, K, BE: Backend>(
     if log_gap_in != log_gap_out {
         let (mut a_trace, scratch_1) = scratch.take_glwe(a);
 
-        // First partial trace, vanishes all coefficients which are not multiples of gap_in
+        // First partial trace, vanishes all coefficients which are not multiples of gap_in = 2^log_gap_in
+        // (glwe_trace(skip) keeps the multiples of N / 2^skip)
         // [1, 1, 1, 1, 0, 0, 0, ..., 0, 0, -1, -1, -1, -1] -> [1, 0, 0, 0, 0, 0, 0, ..., 0, 0, 0, 0, 0, 0]
-        module.glwe_trace(&mut a_trace, module.log_n() - log_gap_in + 1, a, auto_keys, scratch_1);
+        module.glwe_trace(&mut a_trace, module.log_n() - log_gap_in, a, auto_keys, scratch_1);
 
         let steps: usize = 1 << log_domain;
 
@@ -416,6 +417,6 @@ fn post_process<R, A, M, H, K, BE: Backend>(
 
         module.glwe_pack(res, cts, log_gap_out, auto_keys, scratch_2);
     } else {
-        module.glwe_trace(res, module.log_n() - log_gap_in + 1, a, auto_keys, scratch);
+        module.glwe_trace(res, module.log_n() - log_gap_in, a, auto_keys, scratch);
     }
 }
